@@ -10,7 +10,7 @@ FewAssignments == {[c \in C4 |-> g] : g \in Grid} \cup
                   {[c \in C4 |-> IF c \in {"ARG", "SWT"} THEN <<3, 2>> ELSE <<1, 2>>], [c \in C4 |-> IF c = "USA" THEN <<0, 1>> ELSE <<3, 2>>],
                    [c \in C4 |-> IF c \in {"DJI", "NZL"} THEN <<1, 1>> ELSE <<1, 2>>], [c \in C4 |-> IF c \in {"DJI", "MUS"} THEN <<3, 2>> ELSE <<0, 1>>],
                    \* just below one: nothing is rounded up to "fully fed"
-                   [c \in C4 |-> IF c \in {"ARG", "MUS"} THEN <<199, 200>> ELSE <<1, 2>>], [c \in C4 |-> <<199, 200>>]}
+                   [c \in C4 |-> IF c \in {"ARG", "MUS"} THEN <<399, 400>> ELSE <<1, 2>>], [c \in C4 |-> <<399, 400>>]}
 \* thorough: every assignment over the four core countries x {1/2, 3/2} for the two map specials
 AllAssignments == {[c \in C4 |-> IF c \in Core THEN f[c] ELSE g[c]] : f \in [Core -> Grid], g \in [{"MUS", "SWT"} -> {<<1, 2>>, <<3, 2>>}]} \cup FewAssignments
 CountryTab == [r \in RunTypes |-> CASE r \in {"r_arg_base", "r_bad", "r_arg_kf", "r_arg_herd", "r_arg_own48"} -> "ARG" [] r = "r_usa_nw" -> "USA"
